@@ -101,6 +101,63 @@ theorem roots_seen (roots : List Spec) (r : Spec) (h : r ∈ roots) : r ∈ root
         · exact Or.inr h
   exact key roots [] (Or.inr h)
 
+/-- **an entry is pruned wherever it sits** (finding F36, repaired): when the worklist reaches a
+specifier that has an entry, the entry's type sides are dropped and its code targets are put on the
+worklist — whether or not the redirect table also lists the specifier as a source.  The proof uses
+the regenerated table `pruneVisitsEntryOnSource`; with the loop as it was before the repair
+(`continue` after following the redirect) it does not go through. -/
+theorem entry_visited_even_on_redirect_source (redirects : List (Spec × Spec)) (p : PState)
+    (s : Spec) (sl : BSlot) (h : p.slots.lookup s = some sl) :
+    (pruneIter redirects p s).slots = upsert p.slots s (pruneSlot sl) ∧
+    ∀ t ∈ slotTargets sl, t ∈ (pruneIter redirects p s).seen := by
+  have key : ∀ seen : List Spec, ∀ ts : List Spec, ∀ t, (t ∈ ts ∨ t ∈ seen) → t ∈ ts.foldl addSeen seen := by
+    intro seen ts
+    induction ts generalizing seen with
+    | nil => intro t ht; rcases ht with ht | ht; exact absurd ht List.not_mem_nil; exact ht
+    | cons a ts ih =>
+      intro t ht
+      simp only [List.foldl_cons]
+      apply ih
+      rcases ht with ht | ht
+      · rcases List.mem_cons.mp ht with rfl | ht
+        · exact Or.inr (addSeen_mem seen t)
+        · exact Or.inl ht
+      · exact Or.inr (addSeen_mono seen a t ht)
+  cases hr : redirects.lookup s with
+  | none =>
+    simp only [pruneIter, hr, visitEntry, h]
+    exact ⟨trivial, fun t ht => key _ _ t (Or.inl ht)⟩
+  | some u =>
+    simp only [pruneIter, hr, Tables.pruneVisitsEntryOnSource, if_true, visitEntry, h]
+    exact ⟨trivial, fun t ht => key _ _ t (Or.inl ht)⟩
+
+/-- … and the redirect of such a specifier is still followed -/
+theorem redirect_followed_from_entry (redirects : List (Spec × Spec)) (p : PState) (s u : Spec)
+    (hr : redirects.lookup s = some u) : u ∈ (pruneIter redirects p s).seen := by
+  have mono : ∀ (ts : List Spec) (seen : List Spec), u ∈ seen → u ∈ ts.foldl addSeen seen := by
+    intro ts
+    induction ts with
+    | nil => intro seen h; exact h
+    | cons a ts ih => intro seen h; exact ih _ (addSeen_mono seen a u h)
+  simp only [pruneIter, hr, Tables.pruneVisitsEntryOnSource, if_true, visitEntry]
+  cases h : p.slots.lookup s with
+  | none => exact addSeen_mem p.seen u
+  | some sl => exact mono _ _ (addSeen_mem p.seen u)
+
+/-- the F36 layout: the lockfile lists `1 → 9`, the loader reported the module of root `0` under
+`1`; the module imports `2` (code) and `3` (type only).  `2` is kept, the type side is gone. -/
+def staleSlots : List (Spec × BSlot) :=
+  [(1, .module (.js .TypeScript
+      [{ text := 0, code := .ok 2 0, type := .none, dyn := false, attr := none, isAsset := false, sourcePhase := none },
+       { text := 1, code := .none, type := .ok 3 1, dyn := false, attr := none, isAsset := false, sourcePhase := none }]
+      none)),
+   (2, .module (.js .TypeScript [] none)),
+   (3, .module (.js .Dts [] none))]
+
+theorem stale_lockfile_example :
+    ((pruneTypes [0] staleSlots [(0, 1), (1, 9)] 10).slots.map (·.1)) = [1, 2] ∧
+    (pruneTypes [0] staleSlots [(0, 1), (1, 9)] 10).redirects = [(0, 1), (1, 9)] := by decide
+
 /-- non-vacuity: root 0 imports 1 (code) and 2 (type only); 2 is dropped, 1 kept -/
 def demoSlots : List (Spec × BSlot) :=
   [(0, .module (.js .TypeScript
